@@ -142,4 +142,378 @@ pub fn main(args: &util::Args) {
     let _ = writeln!(out, "#FEATS\tname-test catalogue: {} stems x {} relations x {} kinds = {} programs", stems.len(), related_names("w").len(), kinds.len() + PKG_KINDS.len() + 1, n);
     std::fs::write(args.out.join("c02names.cases.tsv"), out).unwrap();
     println!("c02names: {} programs, stems {:?}", n, stems);
+//! Catalogue "a local binder spelled like a package-level name": every binder kind x every use
+//! position x every kind of package-level name (enum variant with / without payload, upper- and
+//! lower-case, struct, enum type, function, builtin) x where that name is declared (same file /
+//! another file of the package).  Lexical scoping says the spelling of a local binder is
+//! irrelevant, so every program comes with a TWIN in which the binder (and the uses it binds) is
+//! called by a fresh name of the same length: nothing else differs.  Three model-free oracles
+//! follow (used by C01 and C05):
+//!   * the program prints what it prints by construction (`expected`),
+//!   * program and twin are accepted alike and behave alike at every stage,
+//!   * CST->AST lowering commutes with the renaming (`lowering_alpha`).
+//! `gv namecat` lists every single cell of the product with the outcome of compiling it alone.
+use crate::util::{self, Outcome};
+use std::fmt::Write as _;
+
+#[derive(Clone, Copy, PartialEq, Eq, Debug)]
+pub enum Site {
+    /// the package-level names are declared in main.gom itself
+    Same,
+    /// ... in another file of package Main
+    Other,
+}
+
+/// (kind, spelling); none of the templates below mentions any of these spellings
+pub const SPELLINGS: [(&str, &str); 8] = [
+    ("variant-payload-upper", "Square"),
+    ("variant-payload-lower", "square"),
+    ("variant-nullary-upper", "Dot"),
+    ("variant-nullary-lower", "dot"),
+    ("struct", "Box"),
+    ("enum-type", "Tone"),
+    ("function", "helper"),
+    ("builtin", "int32_to_string"),
+];
+
+/// spellings that are constructors of the file that declares them: in PATTERN position of that
+/// file such a name is a constructor pattern, not a binder (lower.rs; the property does not
+/// decide that), so pattern binders cannot take them there
+fn ctor_like(spelling: &str) -> bool {
+    matches!(spelling, "Square" | "square" | "Dot" | "dot" | "Box")
+}
+
+/// same length, no declaration of that name anywhere
+pub fn fresh_for(name: &str) -> String {
+    let mut cs: Vec<char> = name.chars().collect();
+    let n = cs.len();
+    cs[0] = 'z';
+    cs[n - 1] = 'q';
+    cs.into_iter().collect()
+}
+
+const DECLS: &str = "enum Shape { Circle(int32), Square(int32), square(int32), Dot, dot }\n\
+enum Tone { Hi, Lo }\n\
+struct Box { w: int32 }\n\
+fn helper(r: int32) -> Shape { Shape::Square(r * 100) }\n\
+fn show(s: Shape) -> string { match s { Shape::Circle(k) => \"circle \" + int32_to_string(k), Shape::Square(k) => \"Square \" + int32_to_string(k), Shape::square(k) => \"square \" + int32_to_string(k), Shape::Dot => \"Dot\", Shape::dot => \"dot\", } }\n\
+fn tone(t: Tone) -> int32 { match t { Tone::Hi => 1, Tone::Lo => 0, } }\n";
+
+const SUPPORT: &str = "struct Pt { w: int32 }\n\
+fn make_circle(r: int32) -> Shape { Shape::Circle(r + 1) }\n\
+fn triple(r: int32) -> int32 { r * 3 }\n\
+fn is_big(r: int32) -> bool { r > 100 }\n\
+fn origin() -> Shape { Shape::Circle(0) }\n\
+fn make2(p: int32, q: int32) -> Shape { Shape::Circle(p * 10 + q) }\n\
+fn mk_pt() -> Pt { Pt { w: 5 } }\n\
+fn announce(r: int32) -> unit { let _ = string_println(\"announce \" + int32_to_string(r)); () }\n\
+fn apply1(f: (int32) -> Shape, k: int32) -> Shape { f(k) }\n\
+fn wrap(s: Shape) -> Shape { match s { Shape::Circle(k) => Shape::Circle(k + 1000), _ => Shape::Dot, } }\n\
+fn b2s(b: bool) -> string { if b { \"true\" } else { \"false\" } }\n";
+
+#[derive(Clone, Copy, PartialEq, Eq)]
+enum R {
+    Shape,
+    Int,
+    Bool,
+}
+
+/// a use position: the binder has type `ty` and is given `value`; `use_` (with `@` for the binder
+/// and `n` = 3 in scope) has type `res` and prints as `expected` (after `pre`, lines it prints itself)
+pub struct UsePos {
+    pub label: &'static str,
+    ty: &'static str,
+    value: &'static str,
+    res: R,
+    use_: &'static str,
+    pre: &'static str,
+    expected: &'static str,
+}
+
+const fn up(label: &'static str, ty: &'static str, value: &'static str, res: R, use_: &'static str, pre: &'static str, expected: &'static str) -> UsePos {
+    UsePos { label, ty, value, res, use_, pre, expected }
+}
+
+pub const USES: [UsePos; 22] = [
+    up("bare", "int32", "41", R::Int, "@ + n", "", "44"),
+    up("callee", "(int32) -> Shape", "make_circle", R::Shape, "@(n)", "", "circle 4"),
+    up("callee-int", "(int32) -> int32", "triple", R::Int, "@(n)", "", "9"),
+    up("callee-parenthesised", "(int32) -> Shape", "make_circle", R::Shape, "(@)(n)", "", "circle 4"),
+    up("callee-under-minus", "(int32) -> int32", "triple", R::Int, "-@(n)", "", "-9"),
+    up("callee-under-not", "(int32) -> bool", "is_big", R::Bool, "!@(n)", "", "true"),
+    up("callee-binary-lhs", "(int32) -> int32", "triple", R::Int, "@(n) + 1", "", "10"),
+    up("callee-binary-rhs", "(int32) -> int32", "triple", R::Int, "1 + @(n)", "", "10"),
+    up("callee-both-sides-of-and", "(int32) -> int32", "triple", R::Bool, "@(n) > 2 && @(1) < 9", "", "true"),
+    up("passed-on", "(int32) -> Shape", "make_circle", R::Shape, "apply1(@, n)", "", "circle 4"),
+    up("aliased-then-called", "(int32) -> Shape", "make_circle", R::Shape, "let f = @; f(n)", "", "circle 4"),
+    up("callee-inside-closure", "(int32) -> Shape", "make_circle", R::Shape, "let f = |k: int32| @(k); f(n)", "", "circle 4"),
+    up("callee-no-argument", "() -> Shape", "origin", R::Shape, "@()", "", "circle 0"),
+    up("callee-two-arguments", "(int32, int32) -> Shape", "make2", R::Shape, "@(n, 1)", "", "circle 31"),
+    up("callee-inside-argument", "(int32) -> Shape", "make_circle", R::Shape, "wrap(@(n))", "", "circle 1004"),
+    up("callee-as-statement", "(int32) -> unit", "announce", R::Int, "let _ = @(n); n", "announce 3\n", "3"),
+    up("callee-in-if-condition", "(int32) -> bool", "is_big", R::Int, "if @(n) { 1 } else { 2 }", "", "2"),
+    up("callee-in-scrutinee", "(int32) -> Shape", "make_circle", R::Int, "match @(n) { Shape::Circle(k) => k + 10, _ => 0, }", "", "14"),
+    up("field-receiver", "Pt", "mk_pt()", R::Int, "@.w + n", "", "8"),
+    up("scrutinee", "Shape", "make_circle(1)", R::Int, "match @ { Shape::Circle(k) => k + n, _ => 0, }", "", "5"),
+    up("argument", "int32", "41", R::Int, "triple(@)", "", "123"),
+    up("if-condition", "bool", "is_big(7)", R::Int, "if @ { 1 } else { n }", "", "3"),
+];
+
+pub const BINDERS: [&str; 10] = [
+    "fn-param",
+    "closure-param",
+    "struct-pattern-shorthand",
+    "let",
+    "let-annotated",
+    "match-var",
+    "let-tuple",
+    "match-tuple",
+    "struct-pattern-renamed",
+    "enum-payload-pattern",
+];
+
+/// binder kinds that are pattern VARIABLES written as a bare name (a constructor pattern where the
+/// name is a constructor of the file)
+fn is_bare_pattern(binder: &str) -> bool {
+    !matches!(binder, "fn-param" | "closure-param" | "struct-pattern-shorthand")
+}
+
+pub fn admissible(site: Site, spelling: &str) -> Vec<&'static str> {
+    BINDERS.iter().copied().filter(|b| !(site == Site::Same && ctor_like(spelling) && is_bare_pattern(b))).collect()
+}
+
+fn res_ty(r: R) -> &'static str {
+    match r {
+        R::Shape => "Shape",
+        R::Int => "int32",
+        R::Bool => "bool",
+    }
+}
+
+/// one cell: items (a struct / enum of its own where the binder kind needs one, the function
+/// `u<i>`), and the call that runs it with n = 3
+fn cell(i: usize, u: &UsePos, binder: &str, name: &str) -> (String, String) {
+    let usage = u.use_.replace('@', name);
+    let (ty, value, rt) = (u.ty, u.value, res_ty(u.res));
+    let mut items = String::new();
+    let mut call = format!("u{}(3)", i);
+    match binder {
+        "fn-param" => {
+            writeln!(items, "fn u{i}({name}: {ty}, n: int32) -> {rt} {{ {usage} }}").unwrap();
+            call = format!("u{}({}, 3)", i, value);
+        }
+        "closure-param" => {
+            writeln!(items, "fn u{i}(m: int32) -> {rt} {{ let ap = |{name}: {ty}, n: int32| {{ {usage} }}; ap({value}, m) }}").unwrap();
+        }
+        "let" => writeln!(items, "fn u{i}(n: int32) -> {rt} {{ let {name} = {value}; {usage} }}").unwrap(),
+        "let-annotated" => writeln!(items, "fn u{i}(n: int32) -> {rt} {{ let {name}: {ty} = {value}; {usage} }}").unwrap(),
+        "match-var" => writeln!(items, "fn u{i}(n: int32) -> {rt} {{ let sv = {value}; match sv {{ {name} => {{ {usage} }}, }} }}").unwrap(),
+        "let-tuple" => writeln!(items, "fn u{i}(n: int32) -> {rt} {{ let ({name}, _) = ({value}, 0); {usage} }}").unwrap(),
+        "match-tuple" => writeln!(items, "fn u{i}(n: int32) -> {rt} {{ let sv = ({value}, n); match sv {{ ({name}, _) => {{ {usage} }}, }} }}").unwrap(),
+        "struct-pattern-shorthand" => {
+            writeln!(items, "struct H{i} {{ {name}: {ty}, q: int32 }}").unwrap();
+            writeln!(items, "fn u{i}(n: int32) -> {rt} {{ let hv = H{i} {{ {name}: {value}, q: 0 }}; match hv {{ H{i} {{ {name}, q: _ }} => {{ {usage} }}, }} }}").unwrap();
+        }
+        "struct-pattern-renamed" => {
+            writeln!(items, "struct H{i} {{ f: {ty}, q: int32 }}").unwrap();
+            writeln!(items, "fn u{i}(n: int32) -> {rt} {{ let hv = H{i} {{ f: {value}, q: 0 }}; match hv {{ H{i} {{ f: {name}, q: _ }} => {{ {usage} }}, }} }}").unwrap();
+        }
+        "enum-payload-pattern" => {
+            writeln!(items, "enum W{i} {{ Wr{i}({ty}), Wn{i} }}").unwrap();
+            writeln!(items, "fn u{i}(n: int32) -> {rt} {{ let wv = W{i}::Wr{i}({value}); match wv {{ W{i}::Wr{i}({name}) => {{ {usage} }}, W{i}::Wn{i} => {usage0}, }} }}", usage0 = default_of(u.res)).unwrap();
+        }
+        other => panic!("binder kind {}", other),
+    }
+    (items, call)
+}
+
+fn default_of(r: R) -> &'static str {
+    match r {
+        R::Shape => "Shape::Circle(0)",
+        R::Int => "0",
+        R::Bool => "false",
+    }
+}
+
+pub struct NameCase {
+    pub id: String,
+    pub site: Site,
+    pub kind: &'static str,
+    pub name: &'static str,
+    pub fresh: String,
+    /// `main.gom` first
+    pub files: Vec<(String, String)>,
+    pub twin: Vec<(String, String)>,
+    pub expected: String,
+    /// (use position, binder kind) of every cell
+    pub cells: Vec<(&'static str, &'static str)>,
+    cell_ix: Vec<(usize, &'static str)>,
+}
+
+impl NameCase {
+    /// every cell of this program as a program of its own (`<id>:c<i>`): the smallest failing inputs
+    pub fn split(&self) -> Vec<NameCase> {
+        self.cell_ix.iter().enumerate().map(|(i, c)| case_of(format!("{}:c{}", self.id, i), self.site, self.kind, self.name, &[*c])).collect()
+    }
+}
+
+fn assemble(site: Site, name: &str, cells: &[(usize, &'static str)]) -> (Vec<(String, String)>, String) {
+    let mut items = String::new();
+    let mut body = String::new();
+    let mut expected = String::new();
+    for (i, (ui, binder)) in cells.iter().enumerate() {
+        let u = &USES[*ui];
+        let (it, call) = cell(i, u, binder, name);
+        items.push_str(&it);
+        let shown = match u.res {
+            R::Shape => format!("show({})", call),
+            R::Int => format!("int32_to_string({})", call),
+            R::Bool => format!("b2s({})", call),
+        };
+        // the call first: what it prints itself comes before its line
+        writeln!(body, "    let r{i} = {shown};\n    let _ = string_println(\"{label}/{binder}: \" + r{i});", label = u.label).unwrap();
+        write!(expected, "{}{}/{}: {}\n", u.pre, u.label, binder, u.expected).unwrap();
+    }
+    let main = format!("{}{}fn main() {{\n{}    ()\n}}\n", SUPPORT, items, body);
+    let files = match site {
+        Site::Same => vec![("main.gom".to_string(), format!("{}{}", DECLS, main))],
+        Site::Other => vec![("main.gom".to_string(), main), ("types.gom".to_string(), DECLS.to_string())],
+    };
+    (files, expected)
+}
+
+fn case_of(id: String, site: Site, kind: &'static str, name: &'static str, cells: &[(usize, &'static str)]) -> NameCase {
+    let fresh = fresh_for(name);
+    let (files, expected) = assemble(site, name, cells);
+    let (twin, _) = assemble(site, &fresh, cells);
+    NameCase { id, site, kind, name, fresh, files, twin, expected, cells: cells.iter().map(|(u, b)| (USES[*u].label, *b)).collect(), cell_ix: cells.to_vec() }
+}
+
+/// the catalogue: one program per (site, spelling, rotation) holding every use position, use
+/// position `u` under binder kind `admissible[(u + rotation) % len]`; all rotations (= the whole
+/// product) in the thorough tier, three of them (chosen by the seed) in the quick tier
+pub fn catalogue(seed: u64, thorough: bool) -> Vec<NameCase> {
+    let mut out = Vec::new();
+    for site in [Site::Same, Site::Other] {
+        for (kind, name) in SPELLINGS.iter() {
+            let adm = admissible(site, name);
+            let rots: Vec<usize> = if thorough { (0..adm.len()).collect() } else { (0..3.min(adm.len())).map(|j| (seed as usize + j * (adm.len() / 3).max(1)) % adm.len()).collect() };
+            let mut seen = Vec::new();
+            for r in rots {
+                if seen.contains(&r) {
+                    continue;
+                }
+                seen.push(r);
+                let cells: Vec<(usize, &'static str)> = (0..USES.len()).map(|u| (u, adm[(u + r) % adm.len()])).collect();
+                out.push(case_of(format!("names:{:?}:{}:r{}", site, kind, r).to_lowercase(), site, kind, name, &cells));
+            }
+        }
+    }
+    out
+}
+
+/// every single cell of the product as a program of its own
+pub fn single_cells() -> Vec<NameCase> {
+    let mut out = Vec::new();
+    for site in [Site::Same, Site::Other] {
+        for (kind, name) in SPELLINGS.iter() {
+            for b in admissible(site, name) {
+                for u in 0..USES.len() {
+                    out.push(case_of(format!("names1:{:?}:{}:{}:{}", site, kind, b, USES[u].label).to_lowercase(), site, kind, name, &[(u, b)]));
+                }
+            }
+        }
+    }
+    out
+}
+
+pub fn write_project(root: &std::path::Path, files: &[(String, String)]) -> std::path::PathBuf {
+    let _ = std::fs::remove_dir_all(root);
+    for (rel, text) in files {
+        let p = root.join(rel);
+        std::fs::create_dir_all(p.parent().unwrap()).unwrap();
+        std::fs::write(&p, text).unwrap();
+    }
+    root.join("main.gom")
+}
+
+/// CST->AST lowering commutes with renaming a local binder: the functions `u<i>` of main.gom,
+/// lowered from the program, with the binder's spelling replaced by the fresh one, are the
+/// functions lowered from the twin (same length of the two names: same source positions)
+pub fn lowering_alpha(c: &NameCase, dir: &std::path::Path) -> Result<usize, String> {
+    let lower = |files: &[(String, String)], sub: &str| -> Result<Vec<String>, String> {
+        let entry = write_project(&dir.join(sub), files);
+        let src = &files[0].1;
+        let r = std::panic::catch_unwind(std::panic::AssertUnwindSafe(|| compiler::pipeline::pipeline::parse_ast_file(&entry, src)));
+        match r {
+            Ok(Ok(f)) => Ok(f
+                .toplevels
+                .iter()
+                .filter_map(|it| match it {
+                    ast::ast::Item::Fn(f) if f.name.0.starts_with('u') && f.name.0[1..].chars().all(|c| c.is_ascii_digit()) && f.name.0.len() > 1 => {
+                        Some(format!("{:?}", f))
+                    }
+                    _ => None,
+                })
+                .collect()),
+            Ok(Err(e)) => Err(format!("not lowered ({}): {}", sub, e.diagnostics().iter().map(|d| d.message().to_string()).collect::<Vec<_>>().join(" | "))),
+            Err(_) => Err(format!("lowering panics ({})", sub)),
+        }
+    };
+    let a = lower(&c.files, "la")?;
+    let b = lower(&c.twin, "lb")?;
+    if a.len() != b.len() || a.len() != c.cells.len() {
+        return Err(format!("{} / {} functions lowered, {} written", a.len(), b.len(), c.cells.len()));
+    }
+    let quoted = |s: &str| format!("\"{}\"", s);
+    for (i, (x, y)) in a.iter().zip(b.iter()).enumerate() {
+        let renamed = x.replace(&quoted(c.name), &quoted(&c.fresh));
+        if &renamed != y {
+            let k = renamed.bytes().zip(y.bytes()).take_while(|(p, q)| p == q).count();
+            let lo = k.saturating_sub(160);
+            return Err(format!(
+                "u{} ({} / {}): lowered under the name `{}` …{}… but under `{}` …{}…",
+                i,
+                c.cells[i].0,
+                c.cells[i].1,
+                c.name,
+                &renamed[lo..(k + 160).min(renamed.len())],
+                c.fresh,
+                &y[lo..(k + 160).min(y.len())]
+            ));
+        }
+    }
+    Ok(a.len())
+}
+
+/// `gv namecat`: every single cell compiled alone (program and twin) — which cells the compiler
+/// under test accepts; development aid and the map of the product
+pub fn main(_args: &util::Args) {
+    util::quiet_panics();
+    let dir = util::scratch_dir("namecat");
+    let mut bad = 0;
+    // every cell alone, then the programs of the thorough catalogue (all rotations)
+    let mut all = single_cells();
+    all.extend(catalogue(1, true));
+    for c in &all {
+        let show = |o: Outcome| match o {
+            Outcome::Ok(_) => "ok".to_string(),
+            Outcome::Err(st, m) => format!("err:{}:{}", st, m.first().cloned().unwrap_or_default()),
+            Outcome::Panic(m) => format!("panic:{}", m),
+        };
+        let ea = write_project(&dir.join("a"), &c.files);
+        let a = show(util::compile_path(&ea, &c.files[0].1));
+        let eb = write_project(&dir.join("b"), &c.twin);
+        let b = show(util::compile_path(&eb, &c.twin[0].1));
+        let la = match lowering_alpha(c, &dir) {
+            Ok(_) => "ok".to_string(),
+            Err(e) => format!("DIFF {}", e),
+        };
+        if a != "ok" || b != "ok" || la != "ok" {
+            bad += 1;
+            println!("{}\t{}\t{}\t{}", c.id, a, b, la);
+        }
+    }
+    println!("cells={} not-all-ok={}", all.len(), bad);
+    let _ = std::fs::remove_dir_all(&dir);
 }
